@@ -321,4 +321,99 @@ Proof.
   - apply inv_rest_ninv in IR; destruct IR as [HL IN]. apply inv_rest_ninv; split; auto.
 Qed.
 
+
+(* ------------------------------------------------------------------ the three senders *)
+Lemma step_MainSend_count : forall s s', step nt T s MainSend = Ok s' -> inv_count nt s -> inv_count nt s'.
+Proof.
+  intros s s' H I; unfold step in H.
+  destruct (mn s) as [|it [|r rs]| | |] eqn:EM; try discriminate.
+  destruct (try_send nt s r it) as [s1| |] eqn:ES; inversion H; subst; clear H.
+  match goal with |- context [set_mn s1 ?m] => set (M := m) end.
+  apply inv_count_split in I; destruct I as [IC IR].
+  pose proof (try_send_rest _ _ _ _ IR ES) as IR1.
+  assert (HS : inv_shape nt s) by apply IR.
+  pose proof (try_send_debt _ _ _ _ IC HS ES) as DB.
+  pose proof (try_send_frame _ _ _ _ _ ES) as (F1&F2&F3&F4&F5&_&_&_&F9&F10).
+  apply inv_count_split; split.
+  - intros c x. specialize (DB c x). rewrite tr_set_mn, node_set_mn. unfold pending in *.
+    change (pend_workers c x (set_mn s1 M)) with (pend_workers c x s1).
+    change (pend_cbs c x (set_mn s1 M)) with (pend_cbs c x s1).
+    assert (P : pend_main c x (set_mn s1 M) + (if pair_is c x (r, it) then 1 else 0) = pend_main c x s1).
+    { unfold pend_main. rewrite mn_set_mn, F3, EM. unfold M, pair_is; cbn [fst snd].
+      rewrite cnt_nat_cons, (Nat.eqb_sym c r).
+      destruct rs as [|r' rs']; [rewrite cnt_nat_nil|]; destruct (item_eqb it x); destruct (r =? c); simpl; lia. }
+    lia.
+  - apply (rest_frame nt s1); auto. intro; apply neq1_refl.
+Qed.
+
+Lemma neq1_set_worker : forall y w old st, nth_error (ws y) w = Some old ->
+  (forall x, wproc x old = 0) -> (forall x, wproc x st = 0) -> neq1 y (set_worker y w st).
+Proof.
+  intros y w old st HW H1 H2. repeat split; auto.
+  - rewrite ws_set_worker; apply upd_length.
+  - intro x. rewrite ws_set_worker. pose proof (wprocsum_upd x y w old st HW). rewrite H1, H2 in H; lia.
+Qed.
+
+Lemma step_SendW_count : forall s n w s', step nt T s (SendW n w) = Ok s' -> inv_count nt s -> inv_count nt s'.
+Proof.
+  intros s n w s' H I; unfold step in H.
+  destruct (nth_error (ws (node s n)) w) as [[| |[|[c0 it] rest]| | | | |]|] eqn:HW; try discriminate.
+  destruct (try_send nt s c0 it) as [s1| |] eqn:ES; inversion H; subst; clear H.
+  apply inv_count_split in I; destruct I as [IC IR].
+  pose proof (try_send_rest _ _ _ _ IR ES) as IR1.
+  assert (HS : inv_shape nt s) by apply IR.
+  pose proof (try_send_debt _ _ _ _ IC HS ES) as DB.
+  pose proof (try_send_frame _ _ _ _ _ ES) as (F1&F2&F3&F4&F5&_&_&_&F9&F10).
+  pose proof (worker_in_range _ _ _ _ HW) as HR.
+  assert (HW1 : nth_error (ws (node s1 n)) w = Some (WSend ((c0, it) :: rest))).
+  { destruct (F10 n) as [E _]; rewrite E; auto. }
+  set (Y := set_worker (node s1 n) w (after_deliveries rest)).
+  apply inv_count_split; split.
+  - intros c x. specialize (DB c x). rewrite tr_set_node. unfold pending in *.
+    change (pend_cbs c x (set_node s1 n Y)) with (pend_cbs c x s1).
+    change (pend_main c x (set_node s1 n Y)) with (pend_main c x s1).
+    assert (P : pend_workers c x (set_node s1 n Y) + (if pair_is c x (c0, it) then 1 else 0) = pend_workers c x s1).
+    { pose proof (pend_workers_set_node c x s1 n Y) as P1. rewrite F1 in P1. specialize (P1 HR).
+      pose proof (wsum_set_worker c x _ w _ (after_deliveries rest) HW1) as P2. fold Y in P2.
+      rewrite wpend_after_deliveries in P2. cbn [wpend] in P2. rewrite cnt_pair_cons in P2. lia. }
+    assert (O : offered (node (set_node s1 n Y) c) = offered (node s1 c)
+                /\ dropped (node (set_node s1 n Y) c) = dropped (node s1 c)).
+    { destruct (Nat.eq_dec c n) as [->|Hc].
+      - rewrite node_set_node_same by lia. split; reflexivity.
+      - rewrite node_set_node_other by auto. split; reflexivity. }
+    destruct O as [O1 O2]. rewrite O1, O2. lia.
+  - apply (rest_frame nt s1); auto.
+    + autorewrite with exb; auto.
+    + intro m. destruct (Nat.eq_dec m n) as [->|Hm].
+      * rewrite node_set_node_same by lia. apply (neq1_set_worker _ _ _ _ HW1); auto.
+        intro; apply wproc_after_deliveries.
+      * rewrite node_set_node_other by auto. apply neq1_refl.
+Qed.
+
+Lemma step_SendC_count : forall s i s', step nt T s (SendC i) = Ok s' -> inv_count nt s -> inv_count nt s'.
+Proof.
+  intros s i s' H I; unfold step in H.
+  destruct (nth_error (cbs s) i) as [[n [|[c0 it] rest]]|] eqn:HC; try discriminate.
+  destruct (try_send nt s c0 it) as [s1| |] eqn:ES; inversion H; subst; clear H.
+  apply inv_count_split in I; destruct I as [IC IR].
+  pose proof (try_send_rest _ _ _ _ IR ES) as IR1.
+  assert (HS : inv_shape nt s) by apply IR.
+  pose proof (try_send_debt _ _ _ _ IC HS ES) as DB.
+  pose proof (try_send_frame _ _ _ _ _ ES) as (F1&F2&F3&F4&F5&_&_&_&F9&F10).
+  rewrite <- F2 in HC.
+  match goal with |- context [set_cbs s1 ?m] => set (CB := m) end.
+  apply inv_count_split; split.
+  - intros c x. specialize (DB c x). rewrite tr_set_cbs, node_set_cbs. unfold pending in *.
+    change (pend_workers c x (set_cbs s1 CB)) with (pend_workers c x s1).
+    change (pend_main c x (set_cbs s1 CB)) with (pend_main c x s1).
+    assert (P : pend_cbs c x (set_cbs s1 CB) + (if pair_is c x (c0, it) then 1 else 0) = pend_cbs c x s1).
+    { unfold pend_cbs. rewrite cbs_set_cbs. unfold CB. destruct rest as [|d rest'].
+      - pose proof (sumf_remove _ (fun cb : nat * list (nat * item) => cnt_pair c x (snd cb)) _ _ _ HC) as P1.
+        cbn [snd] in P1. rewrite cnt_pair_cons, cnt_pair_nil in P1. simpl skipn in P1. lia.
+      - pose proof (sumf_upd _ (fun cb : nat * list (nat * item) => cnt_pair c x (snd cb)) _ _ _ (n, d :: rest') HC) as P1.
+        cbn [snd] in P1. rewrite (cnt_pair_cons c x (c0, it)) in P1. lia. }
+    lia.
+  - apply (rest_frame nt s1); auto. intro; apply neq1_refl.
+Qed.
+
 End MovingSteps.
